@@ -1,3 +1,4 @@
+import Dia.StreamAll
 import Dia.Examples
 import Dia.ServerBoth
 import Dia.ResetSim
@@ -89,6 +90,29 @@ theorem C09_refused_both (cfg : Cfg) (dict : Lookup) (frames : List Bytes) (reqs
       ((answers.take (k - 1)).map (fun a => a.enc.bytes)).flatten <+: (serve cfg dict (answers.map .ok) evs w).written ∧
       (serve cfg dict (answers.map .ok) evs w).written <+: ((answers.take k).map (fun a => a.enc.bytes)).flatten :=
   serve_write_any_rest cfg dict frames reqs answers rest evs w hl1 hl2 hacc henc hne hflat hrest
+
+/-- ... in particular a well-framed frame the message decoder refuses (a command or an application the library does not know, an
+AVP the dictionary does not know, a short frame whose last AVP announces data the frame does not have), followed by anything: the
+requests before it are handled - as far as the write side lets them - and the handler is never called for the refused frame or
+for anything behind it -/
+theorem C09_refused_frame_both (cfg : Cfg) (dict : Lookup) (frames : List Bytes) (reqs answers : List Msg)
+    (f more : Bytes) (evs : List REv) (w : List WEv)
+    (hl1 : frames.length = reqs.length) (hl2 : answers.length = reqs.length)
+    (hacc : ∀ i (h1 : i < frames.length) (h2 : i < reqs.length), Accepts cfg dict frames[i] reqs[i])
+    (henc : ∀ a ∈ answers, a.enc.err = none) (hf : Framed f) (hno : ∀ m, decMsg cfg dict f ≠ .ok m)
+    (hne : noEmpty evs) (hflat : flat evs = frames.flatten ++ (f ++ more)) :
+    ∃ k, k ≤ reqs.length ∧ (serve cfg dict (answers.map .ok) evs w).calls = reqs.take k ∧
+      ((answers.take (k - 1)).map (fun a => a.enc.bytes)).flatten <+: (serve cfg dict (answers.map .ok) evs w).written ∧
+      (serve cfg dict (answers.map .ok) evs w).written <+: ((answers.take k).map (fun a => a.enc.bytes)).flatten :=
+  serve_write_any_rest cfg dict frames reqs answers (f ++ more) evs w hl1 hl2 hacc henc hne hflat
+    (fun evs2 hne2 hfl2 m' hm' => by
+      obtain ⟨evs', hd, _, _⟩ := Codec.decode_framed cfg dict evs2 f more hne2 hfl2 hf
+      rw [hd] at hm'
+      simp only at hm'
+      cases hdm : decMsg cfg dict f with
+      | ok m => exact hno m hdm
+      | err e => rw [hdm] at hm'; simp [COut.ofDec] at hm'
+      | panic => rw [hdm] at hm'; simp [COut.ofDec] at hm')
 
 /-- non-vacuity of `C09_cut_both`: one complete request, the next one cut after 7 octets, the write side failing after 3 octets
 of the answer - one handler call, three octets written -/
